@@ -72,6 +72,13 @@ pub fn run_scenario(seed: u64, i: usize, tier: Tier) -> Outcome {
         .collect();
     let mut t = HopSpec::simple(tcfg.target, delay_ns + r.below(delay_ns + 1));
     t.quote = Quote::Full;
+    // target responses arriving out of order (jitter) or partially lost
+    if r.chance(1, 2) {
+        t.delay_ns.1 = t.delay_ns.0 * 3 + 2_000_000;
+    }
+    if r.chance(1, 4) {
+        t.loss_pct = 40;
+    }
     if r.chance(1, 6) {
         t.behaviour = Behaviour::Silent;
     }
